@@ -276,7 +276,9 @@ func buildWorld(r *vf.Run, wi int) (w *world, err error) {
 	}
 	for a := range w.unspent {
 		s := w.unspent[a]
-		sort.Slice(s, func(i, j int) bool { return s[i].Body.Coins < s[j].Body.Coins || (s[i].Body.Coins == s[j].Body.Coins && s[i].Body.Hours < s[j].Body.Hours) })
+		sort.Slice(s, func(i, j int) bool {
+			return s[i].Body.Coins < s[j].Body.Coins || (s[i].Body.Coins == s[j].Body.Coins && s[i].Body.Hours < s[j].Body.Hours)
+		})
 	}
 	// harness self-check: the node knows every output the harness will spend, exactly as the harness computed it
 	for a, s := range w.unspent {
